@@ -285,8 +285,11 @@ class ChoiceExplorer:
         self.points_total = 0
         self.capped = False
 
-    def explore(self, prefix=()):
+    def explore(self, prefix=(), shard=(0, 1)):
+        """shard=(i, n): the children of the root execution are dealt round-robin to n shards; shard i explores the
+        subtrees of its children (every shard re-runs the root). The union over i is the complete tree."""
         stack = [list(prefix)]
+        root = True
         while stack:
             pre = stack.pop()
             if self.runs >= self.max_runs:
@@ -306,6 +309,9 @@ class ChoiceExplorer:
                 if dev + 1 <= self.bound:
                     for alt in range(1, arity):
                         new.append(pts[:i] + [(label, arity, alt)])
+            if root:
+                root = False
+                new = [c for j, c in enumerate(new) if j % shard[1] == shard[0]]
             stack.extend(reversed(new))
 
 
